@@ -112,12 +112,21 @@ def multiple_lengths(prefix):
         c.requires(lengths_positive="forall(t, 0, len(self._lengths), self._lengths[t] >= 1)",
                    lengths_strictly_decreasing="forall(t, 1, len(self._lengths), self._lengths[t] < self._lengths[t - 1])",
                    matches_at_most_key_length="forall_keys_m(self)")
+        # ghost: the best (most matches, then fewest errors) among the index hits examined so far
+        c.ghost("g_m = -1", at_start=True)
+        c.ghost("g_e = 1000", at_start=True)
+        for site in ("adapter, e, m = result", "adapter, e, m = self._index[affix]"):
+            # (inserted right after the anchor, so the second statement listed runs first)
+            c.ghost("g_m = max(g_m, m)", after=site)
+            c.ghost("g_e = e if m > g_m else (min(g_e, e) if m == g_m else g_e)", after=site)
         c.loop(1, head="for length in self._lengths", inv=[
             "0 <= __k1 <= len(self._lengths)",
             "best_m == -1 or (1 <= best_length <= len(sequence) and not is_none(best_adapter))",
+            "best_m == g_m and best_e == g_e",
         ])
         c.ensures(
             coordinates_lie_inside_the_read="implies(not is_none(result), 0 <= val(result).rstart <= val(result).rstop <= len(sequence))",
+            most_matches_then_fewest_errors_among_the_examined_hits="implies(not is_none(result), val(result).score == g_m and val(result).errors == g_e)",
             removed_affix_has_an_indexed_length="implies(not is_none(result), val(result).rstop - val(result).rstart >= 1 and "
                                                 + ("val(result).rstart == 0" if prefix else "val(result).rstop == len(sequence)") + ")",
         )
